@@ -86,6 +86,10 @@ def _run_one(args):
 
     faulthandler.dump_traceback_later(CASE_WALL_CAP, exit=True)
     try:
+        if mp.current_process().name != "MainProcess" or os.environ.get("VERIF_PIN_MAIN"):
+            from . import pin_to_one_cpu
+
+            pin_to_one_cpu()
         mod = importlib.import_module(modname)
         workdir = shm_dir()
         try:
@@ -106,6 +110,14 @@ def _run_one(args):
         faulthandler.cancel_dump_traceback_later()
 
 
+def run_forked(modname: str, case: dict) -> dict:
+    """Run ONE case in a short-lived forked worker (the check's parent process never imports torch / jax and never runs a
+    case itself, so minimisation cannot exhaust its JIT code memory)."""
+    ctx = mp.get_context("fork")
+    with ProcessPoolExecutor(max_workers=1, mp_context=ctx) as ex:
+        return ex.submit(_run_one, (modname, case)).result()
+
+
 def run_cases(modname: str, cases: list, workers: int | None = None, budget_s: float | None = None):
     """Run cases in forked workers; results in case order.  Returns
     (outcomes, n_skipped_for_budget)."""
@@ -121,38 +133,53 @@ def run_cases(modname: str, cases: list, workers: int | None = None, budget_s: f
             outcomes[i] = _run_one((modname, c))
         return [outcomes[i] for i in sorted(outcomes)], skipped
     ctx = mp.get_context("fork")
-    with ProcessPoolExecutor(max_workers=workers, mp_context=ctx) as ex:
-        futs = {}
-        # submit lazily in chunks so a budget can stop the batch
-        it = iter(enumerate(cases))
-        pending = set()
-
-        def _submit_some(n):
-            nonlocal skipped
-            for _ in range(n):
-                try:
-                    i, c = next(it)
-                except StopIteration:
-                    return False
-                if budget_s is not None and time.time() - t0 > budget_s:
-                    skipped += 1 + sum(1 for _ in it)
-                    return False
-                f = ex.submit(_run_one, (modname, c))
-                futs[f] = i
-                pending.add(f)
-            return True
-
-        more = _submit_some(workers * 2)
-        while pending:
-            done = next(as_completed(pending))
-            pending.discard(done)
-            i = futs.pop(done)
+    # Workers are recycled every GENERATION cases: a long-lived process that JIT-compiles thousands of XLA programs runs
+    # into vm.max_map_count ("LLVM ERROR: Unable to allocate section memory"); fresh forks are cheap (the parent never
+    # imports torch / jax).
+    generation = int(os.environ.get("VERIF_GENERATION", str(workers * 12)))
+    it = iter(enumerate(cases))
+    exhausted = False
+    while not exhausted:
+        batch = []
+        for _ in range(generation):
             try:
+                batch.append(next(it))
+            except StopIteration:
+                exhausted = True
+                break
+        if not batch:
+            break
+        if budget_s is not None and time.time() - t0 > budget_s:
+            skipped += len(batch) + sum(1 for _ in it)
+            break
+        with ProcessPoolExecutor(max_workers=workers, mp_context=ctx) as ex:
+            futs = {}
+            pending = set()
+            bit = iter(batch)
+
+            def _submit_some(n):
+                nonlocal skipped
+                for _ in range(n):
+                    try:
+                        i, c = next(bit)
+                    except StopIteration:
+                        return False
+                    if budget_s is not None and time.time() - t0 > budget_s:
+                        skipped += 1 + sum(1 for _ in bit)
+                        return False
+                    f = ex.submit(_run_one, (modname, c))
+                    futs[f] = i
+                    pending.add(f)
+                return True
+
+            more = _submit_some(workers * 2)
+            while pending:
+                done = next(as_completed(pending))
+                pending.discard(done)
+                i = futs.pop(done)
                 outcomes[i] = done.result()
-            except BrokenProcessPool:
-                raise
-            if more:
-                more = _submit_some(1)
+                if more:
+                    more = _submit_some(1)
     return [outcomes[i] for i in sorted(outcomes)], skipped
 
 
@@ -200,7 +227,7 @@ def minimise(mod, case: dict, v: dict, max_attempts: int = 60, wall_s: float = 4
             if attempts >= max_attempts or time.time() - t0 > wall_s:
                 break
             attempts += 1
-            out = _run_one((mod.__name__, cand))
+            out = run_forked(mod.__name__, cand)
             if out.get("harness_error"):
                 continue
             if any(x["oracle"] == v["oracle"] for x in out["violations"]):
@@ -262,7 +289,7 @@ def run_check(mod, tier: str, seed: int) -> int:
             case_min, attempts = minimise(mod, case, v)
         except Exception:
             case_min, attempts = case, -1
-        out_min = _run_one((mod.__name__, case_min))
+        out_min = run_forked(mod.__name__, case_min)
         vmin = next((x for x in out_min.get("violations", []) if x["oracle"] == v["oracle"]), v)
         rp = os.path.join(REPLAY_DIR, f"{prop}-{seed}-{case.get('run_index', 0)}-{v['oracle'].replace('.', '_')}.json")
         with open(rp, "w") as f:
